@@ -5,6 +5,8 @@
 (*  equiv    #[serde(K)]            vs #[ts(K)]                            *)
 (*  split    #[serde(K, K2)]        vs #[serde(K)] #[serde(K2)]            *)
 (*  tswins   #[ts(K=v1)] #[serde(K=v2)] (both orders) vs #[ts(K=v1)]       *)
+(*  tswins2  #[ts(K=v1)] #[serde(K=v2, K2)] vs #[ts(K=v1)] #[serde(K2)]:   *)
+(*           the losing serde list still gives its other key               *)
 (*  inert    #[serde(.. J ..)] with an unsupported / unparseable entry J   *)
 (*           at every index   vs the list without J                        *)
 (*  off      (serde-compat off) #[serde(K)]  vs nothing                    *)
@@ -43,7 +45,13 @@ Pairs(p) ==
             \cup (IF hasK2 THEN { [class |-> "split", A |-> <<L("serde", base2)>>, B |-> <<L("serde", <<base2[1]>>), L("serde", <<base2[2]>>)>>, info |-> k.key] } ELSE {})
             \cup (IF k.flag THEN {} ELSE
                   { [class |-> "tswins", A |-> <<L("ts", base1), L("serde", <<E(k.key, "v2")>>)>>, B |-> <<L("ts", base1)>>, info |-> k.key],
-                    [class |-> "tswins", A |-> <<L("serde", <<E(k.key, "v2")>>), L("ts", base1)>>, B |-> <<L("ts", base1)>>, info |-> k.key] })
+                    [class |-> "tswins", A |-> <<L("serde", <<E(k.key, "v2")>>), L("ts", base1)>>, B |-> <<L("ts", base1)>>, info |-> k.key] }
+                  \* the serde list that loses on K still gives its other supported key K2
+                  \cup (IF hasK2 THEN
+                  { [class |-> "tswins2", A |-> <<L("ts", base1), L("serde", <<E(k.key, "v2"), k2e>>)>>, B |-> <<L("ts", base1), L("serde", <<k2e>>)>>, info |-> k.key],
+                    [class |-> "tswins2", A |-> <<L("serde", <<k2e, E(k.key, "v2")>>), L("ts", base1)>>, B |-> <<L("serde", <<k2e>>), L("ts", base1)>>, info |-> k.key],
+                    [class |-> "tswins2", A |-> <<L("ts", base1), L("serde", <<E(k.key, "v2")>>), L("serde", <<k2e>>)>>, B |-> <<L("ts", base1), L("ts", <<k2e>>)>>, info |-> k.key] }
+                   ELSE {}))
             \cup UNION { { [class |-> "inert", A |-> <<L("serde", InsertAt(es, i, J(js[m])))>>, B |-> <<L("serde", es)>>, info |-> js[m].name]
                            : i \in 1..(Len(es) + 1), m \in DOMAIN js } : es \in {base1, base2} }
            ELSE
